@@ -789,6 +789,37 @@ def sugarbase_case(seed):
   return Case(prog, 'sugarbase', K=2, notes=kind)
 
 
+# ---------------------------------------------------------------- family: exprs (C01, C11)
+
+def exprs_case(seed):
+  """`else if` chains whose conditions overlap and whose values repeat, and nested negations over
+  propositions with several solutions (added after seeded changes C01-r7 / C11-r7)."""
+  rnd = random.Random(seed ^ 0xe7)
+  x, y, z, v = Var('x'), Var('y'), Var('z'), Var('v')
+  kind = ['if_chain_head', 'double_neg', 'if_chain_body', 'multi_neg'][seed % 4]
+  rules = []
+  if kind in ('if_chain_head', 'if_chain_body'):
+    c1, c2 = rnd.choice([(0, 1), (1, 0), (0, 0), (1, 2)])
+    v1, v2 = Num(rnd.choice([10, 7])), rnd.choice([Num(20), Bin('+', x, Num(1))])
+    subj = rnd.choice([x, y, Bin('+', x, y)])
+    last = rnd.choice([v1, v1, Num(30)])
+    chain = If(Cmp('>', subj, Num(c1)), v1, If(Cmp(rnd.choice(['>', '>=']), subj, Num(c2)), v2, last))
+    if rnd.random() < 0.4:
+      chain = If(Cmp('==', x, y), v2, chain)
+    if kind == 'if_chain_head':
+      rules.append(Rule('P', [x, y, chain], body=A('E', x, y)))
+    else:
+      rules.append(Rule('P', [x, v], body=Conj([A('E', x, y), Cmp('==', v, chain), Cmp('!=', v, Num(30))])))
+  else:
+    inner = rnd.choice([A('E', x, y), A('F', y, x), A('E', x, x)])
+    n = Neg(Neg(inner))
+    if kind == 'multi_neg':
+      n = rnd.choice([Neg(Neg(Neg(inner))), Neg(Neg(Neg(Neg(inner)))), Neg(Neg(Conj([inner, A('G', y)])))])
+    rules.append(Rule('P', [x], body=Conj([A('G', x), n])))
+  prog = Program(rules, ext=EXT)
+  return Case(prog, 'exprs', K=2, notes=kind)
+
+
 # ---------------------------------------------------------------- fixed witnesses of known findings
 
 def kfc02_case(seed):
